@@ -52,6 +52,16 @@ class CandleMonitor:
     def match_begin(self, c, kind, exchange, symbol, candle):
         self.in_match = (symbol, kind)
         self.fills_in_minute = 0
+        # the segment of the minute's path that the next partial candle has to cover starts at the minute's open
+        self.seg_open = float(np.asarray(candle)[1]) if kind == 'step' else None
+        self.exec_stack = []
+
+    def order_exec_begin(self, c, order, before):
+        if self.in_match and self.in_match[1] == 'step' and before == 'ACTIVE' and order.symbol == self.in_match[0] \
+                and self.seg_open is not None and order.price is not None:
+            p = float(order.price)
+            # (a fill exactly at the start of the segment publishes the whole remainder - the corner C08 states)
+            self.exec_stack.append((order, p, self.seg_open, p == self.seg_open))
 
     def match_end(self, c, kind, exchange, symbol, candle):
         self.in_match = None
@@ -65,6 +75,11 @@ class CandleMonitor:
     def order_exec_end(self, c, order, before):
         if self.in_match and before == 'ACTIVE':
             self.fills_in_minute += 1
+        st = getattr(self, 'exec_stack', None)
+        if st and st[-1][0] is order:
+            st.pop()
+            if not st:
+                self.seg_open = float(order.price)
 
     # ------------------------------------------------------------------ C20 in situ
     def fed(self, c, cstate, exchange, symbol, timeframe):
@@ -163,6 +178,16 @@ class CandleMonitor:
                 c.violate('C07', '1m-partial-outside', f'C07|1m-partial|outside-minute|fast={int(self.fast)}',
                           {'hook': hook, 'symbol': sym, 'row': n - 1, 'got': g.tolist(), 'minute': w.tolist()})
             c.count('c07_mid_minute_reads')
+            # inside a fill of the step simulator the forming minute shows the part of the path walked since the previous
+            # fill: it starts where that one ended and ends AT the fill price - nothing the path has not reached yet
+            st = getattr(self, 'exec_stack', None)
+            if st and self.in_match and self.in_match[1] == 'step' and st[-1][0].symbol == sym and not self.in_liq:
+                _, price, seg_open, at_start = st[-1]
+                if not at_start:
+                    c.count('c07_partial_at_fill_checks')
+                    if float(g[2]) != price or float(g[1]) != seg_open:
+                        c.violate('C07', '1m-partial-at-fill', f'C07|1m-partial|forming-minute-at-a-fill-is-not-the-path-walked-so-far|close-is-fill={int(float(g[2]) == price)}',
+                                  {'hook': hook, 'symbol': sym, 'got': g.tolist(), 'fill_price': price, 'segment_open': seg_open, 'minute': w.tolist()})
 
     def _expected_windows(self, sym, tf, s1):
         m = TF_MIN[tf]
